@@ -12,6 +12,7 @@ PTR = {"memory": 1, "hybrid-mem": 1, "hybrid-shared-mem": 1, "hybrid-persist": 1
 INCL = {"memory": 1, "hybrid-mem": 1, "hybrid-shared-mem": 1, "hybrid-persist": 1, "redis": 0, "hybrid-redis": 0}    # readable at exactly the deadline (never observed)
 
 CONNECT, AUTHOK, AUTHFAIL, KICK, HEARTBEAT, CLOSE, TICK, STALE, SEND, SENDRACE, SREG, SUNREG, SREFRESH, AUTHLOST = 0, 1, 2, 3, 4, 5, 6, 7, 8, 9, 10, 11, 12, 13
+SHUTDOWN, FAULT = 14, 15
 SIDE_CONDITIONS = 9   # lemmas of Proofs/SideC08.v
 
 
@@ -76,6 +77,10 @@ def session_history(rng, nodes, clients, length):
             if k[0] == n and v == c:
                 del regmap[k]
 
+    if rng.random() < 0.12:
+        # a collaborator fault for the whole history: this node's cloud control fails the heartbeat's runtime-state refresh;
+        # the location record must be kept alive by the heartbeats all the same (the two refreshes are independent)
+        ops.append([FAULT, rng.randrange(1, nodes + 1), 1])
     for _ in range(length):
         k = rng.random()
         usable = [nc for nc in open_conns if nc[1] not in dead]
@@ -161,6 +166,16 @@ def session_history(rng, nodes, clients, length):
             t = tick(rng, budget)
             if t:
                 ops.append(t)
+    if rng.random() < 0.3:
+        # graceful shutdown of one node: SessionManager.Close(), then the adapters' deferred CloseConnection of its connections;
+        # the other nodes carry on (heartbeats of their current connections)
+        n = rng.randrange(1, nodes + 1)
+        ops.append([SHUTDOWN, n])
+        for (m, c) in [nc for nc in open_conns if nc[0] == n]:
+            ops.append([CLOSE, m, c])
+        for x2, (m, c) in sorted(current.items()):
+            if m != n and (m, c) in open_conns:
+                ops.append([HEARTBEAT, m, c])
     return ops
 
 
@@ -249,6 +264,12 @@ def scripted(rng):
     for n2 in (2, 1):
         out.append(("response-lost", [[CONNECT, 1, 1], [AUTHOK, 1, 1, x, 0], [HEARTBEAT, 1, 1], [CONNECT, n2, 2], [AUTHLOST, n2, 2, x, 0], [CLOSE, n2, 2],
                                       [HEARTBEAT, 1, 1], [TICK, 2], [HEARTBEAT, 1, 1], [TICK, 2], [CLOSE, 1, 1]]))
+    # graceful shutdown of the node that holds the client's last connection: other nodes must not keep locating it there
+    out.append(("node-shutdown-last", [[CONNECT, 1, 1], [AUTHOK, 1, 1, x, 0], [HEARTBEAT, 1, 1], [SHUTDOWN, 1], [CLOSE, 1, 1], [TICK, 1]]))
+    # shutdown of the OLD node after the client moved: the new registration stays
+    out.append(("node-shutdown-old", base + [[HEARTBEAT, 2, 2], [SHUTDOWN, 1], [CLOSE, 1, 1], [TICK, 2], [HEARTBEAT, 2, 2], [TICK, 2], [CLOSE, 2, 2]]))
+    # cloud control fails the heartbeat's runtime-state refresh: the location record is kept alive all the same
+    out.append(("cloud-fault-heartbeats", [[FAULT, 1, 1], [CONNECT, 1, 1], [AUTHOK, 1, 1, x, 0]] + [[TICK, 2], [HEARTBEAT, 1, 1]] * 3 + [[TICK, 2], [CLOSE, 1, 1]]))
     # three nodes, ping-pong, cleanups in reverse order
     out.append(("three-nodes", [[CONNECT, 1, 1], [AUTHOK, 1, 1, x], [CONNECT, 2, 2], [AUTHOK, 2, 2, x], [CONNECT, 3, 3],
                                 [AUTHOK, 3, 3, x], [CLOSE, 2, 2], [HEARTBEAT, 3, 3], [TICK, 2], [CLOSE, 1, 1],
@@ -463,13 +484,16 @@ def case_value(c, o):
     n = len(c["ops"]) if o["tainted_at"] < 0 else o["tainted_at"]
     ops = []
     for op in c["ops"][:n]:
+        if op[0] == SHUTDOWN and c["mode"] == "session":
+            ops.append([SHUTDOWN, op[1], list(c["clients"]), 0, 0])     # the registry of node op[1] is emptied for every client
+            continue
         op = list(op) + [0] * (5 - len(op))
         if op[0] == TICK:
             op[1] *= c["unit_ms"]
         ops.append(op)
     return [list(o["variant"]), [PTR[c["backend"]], INCL[c["backend"]]], c["ttl_ms"], 0 if c["mode"] == "store" else 1,
             list(c["clients"]), ops, [[[list(a) for a in node] for node in step] for step in o["obs"][:n]],
-            [] if any(op[0] == AUTHLOST for op in c["ops"]) else
+            [] if any(op[0] in (AUTHLOST, FAULT) for op in c["ops"]) else
             [[[list(a) for a in node] for node in step] for step in (o.get("rs") or [])[:n]]]
 
 
